@@ -456,3 +456,65 @@ CONTRACTS = [Close("isclose"), Close("allclose"), NumericDivide("true_divide"), 
              MaskFunction("count_nonzero", 1, ("axis",)), MaskFunction("nonzero", 1, ()),
              MaskFunction("logical_and", 2, ("out", "where")), MaskFunction("logical_or", 2, ("out", "where")),
              BothConstant("remainder"), BothConstant("divmod")]
+
+
+class ResultType(Contract):
+    """numpoly.result_type(*arrays_and_dtypes): numpy.result_type of the same arguments with every polynomial array replaced by its
+    coefficient dtype, in order (so a polynomial takes part in type promotion exactly like a plain array of its coefficient dtype).
+    numpy.result_type(poly, ...) dispatches here: this is what the dtype clauses of multiply and of the joins rest on."""
+    name, func, relpath, properties = "numpoly.result_type", "result_type", "numpoly/array_function/result_type.py", ("C12", "C01")
+    assumptions = ("arity 2 (every combination of polynomial / plain array / dtype) and arity 3 (polynomials) enumerated; "
+                   "numpy.result_type of dtypes/arrays is the uninterpreted promotion function result_type(.,.) (numpy axiom)",)
+
+    def cases(self):
+        import itertools
+        from engine.polymodel import DTypeV, result_type as rt
+        kinds = list(itertools.product(("poly", "array", "dtype"), repeat=2)) + [("poly", "poly", "poly")]
+        for ks in kinds:
+            if "poly" not in ks:
+                continue
+            def make_env(ex, ks=ks):
+                ctx = ex.ctx
+                for a in shape_axioms(ctx) + mono_axioms(ctx):
+                    ctx.assume(a)
+                vals, dts = [], []
+                for k, kind in enumerate(ks):
+                    if kind == "poly":
+                        P = Poly(ctx, f"p{k}", region=Region("caller", f"p{k}"))
+                        ctx.assume(P.wf(ctx))
+                        vals.append(P)
+                        dts.append(P.dtype)
+                    elif kind == "array":
+                        f = ctx.func(f"a{k}", Idx, R)
+                        a = Arr(ctx.const(f"shape{k}", Shp), lambda i, f=f: f(i), "real", ctx.const(f"dt{k}", DT), Region("caller", f"a{k}"))
+                        vals.append(a)
+                        dts.append(a.dtype)
+                    else:
+                        d = ctx.const(f"dt{k}", DT)
+                        vals.append(DTypeV(d))
+                        dts.append(d)
+                ex.dts = dts
+                return {"arrays_and_dtypes": tuple(vals)}
+
+            def check(out, ks=ks):
+                ex = out.ex
+                ex.oblige(f"raises.nothing[{out.exc}]" if out.kind == "raise" else "raises.nothing", z3.BoolVal(out.kind == "return"), "post")
+                if out.kind != "return":
+                    return
+                r = out.value
+                ok = isinstance(r, DTypeV)
+                ex.oblige("post.a_dtype", z3.BoolVal(ok), "post")
+                if not ok:
+                    return
+                want = ex.dts[0]
+                for d in ex.dts[1:]:
+                    want = rt(want, d)
+                ex.oblige("post.numpy_promotion_of_the_coefficient_dtypes_in_order", r.term == want, "post",
+                          note="result_type(d1, d2, ...) with d_k the coefficient dtype of a polynomial argument, the dtype of an array, or the dtype given")
+            yield Case("+".join(ks), make_env, check)
+
+    def apply(self, ex, args, kw, node):
+        raise U("result_type as a callee", node)
+
+
+CONTRACTS = CONTRACTS + [ResultType()]
